@@ -3,6 +3,7 @@
 From ToughV Require Export Model.Base Model.Pct Model.Sig Model.Deleg Model.Client.
 From ToughV Require Import Proofs.ClientP Proofs.SitesP.
 Export ClientP SitesP.
+From ToughV Require Export Proofs.RollbackP Proofs.DelegLoadP Proofs.LivenessP Proofs.DelegBoundP.
 
 (* a file is accepted only if its total length is within the limit it was fetched with, and with
    the expected digest if any: every metadata fetch of the client goes through [fetch] *)
@@ -54,3 +55,48 @@ Proof.
   destruct Hts as ((file & Hf & Hb) & _). apply fetch_ok in Hf as (Hl & Hn & _). exists file. auto.
 Qed.
 Print Assumptions C09_timestamp_bounded.
+
+(* Termination. The model runs the root walk and the recursive delegation loader on fuel and reports
+   E_OutOfFuel when it is used up; the code has no such bound. A cycle never reports it - whatever the
+   server answers, whatever is stored, whatever fault is injected - once the fuel exceeds
+   max_root_updates and the number of entries of any snapshot the server can serve: the walk makes at
+   most max_root_updates hops, and the delegation recursion is never deeper than the number of snapshot
+   entries, because every role on the current path is listed there and (after the repair of F3) no
+   role is its own ancestor. So every cycle ends with success or one of the other errors. *)
+Theorem C09_cycle_terminates : forall c s res w',
+  c_max_root_updates (cy_cfg c) < N.of_nat (c_fuel (cy_cfg c)) ->
+  (forall name limit hash file sn, fetch (cy_srv c) name limit hash = FOk file -> f_body file = CSnap sn ->
+                                   (length (sn_meta sn) <= c_fuel (cy_cfg c))%nat) ->
+  run_cycle fixed c s = (res, w') -> no_oof res.
+Proof. exact cycle_terminates. Qed.
+Print Assumptions C09_cycle_terminates.
+
+Theorem C09_delegation_depth_bounded : forall cfg srv snap cs lim fuel dk rs anc w r w',
+  anc_ok snap anc -> (length (sn_meta snap) < fuel + length anc)%nat ->
+  load_delegs fixed cfg srv snap cs lim fuel dk rs anc w = (r, w') -> no_oof r.
+Proof. exact load_delegs_term. Qed.
+Print Assumptions C09_delegation_depth_bounded.
+
+(* Requests. Every request of a cycle is one of: at most max_root_updates newer-root files, then at most
+   three top-level files, then files of delegated roles that a snapshot served by the repository lists,
+   each under the name its entry determines; when no delegated file is requested twice there are at
+   most as many of them as that snapshot has entries. (A role reachable along two delegation paths is
+   requested once per path: known finding shared_delegate, F15.) *)
+Theorem C09_requests : forall c s res w',
+  run_cycle fixed c s = (res, w') ->
+  exists roots top dreqs,
+    w_log w' = roots ++ top ++ dreqs
+    /\ N.of_nat (length roots) <= c_max_root_updates (cy_cfg c) /\ Forall is_root_req roots
+    /\ (length top <= 3)%nat
+    /\ (dreqs = []
+        \/ exists cs name limit hash file sn,
+             fetch (cy_srv c) name limit hash = FOk file /\ f_body file = CSnap sn
+             /\ Forall (deleg_req sn cs) dreqs
+             /\ (NoDup dreqs -> (length dreqs <= length (sn_meta sn))%nat)).
+Proof. exact cycle_requests. Qed.
+Print Assumptions C09_requests.
+
+(* non-vacuity of the fuel premises: the configuration the harness uses for ordinary scenarios *)
+Example C09_fuel_premise_example :
+  c_max_root_updates w_cfg < N.of_nat (c_fuel w_cfg).
+Proof. vm_compute. reflexivity. Qed.
